@@ -55,6 +55,15 @@ def loaded_cases(rng, tier, shared):
         for j, (kind, call) in enumerate(calls):
             cases.append(('ld%d_%d' % (i, j), ['loadx 0 ' + name, 'snap 0', call, 'snap 0'], kind))
         cases.append(('ld%d_p' % i, ['loadx 0 ' + name, 'snap 0', 'P.new %s x' % hx(b'NOTYPE'), 'param 0 ' + hx(b'BRANDNEW'), 'snap 0'], 'loaded:untyped-parameter-new-group'))
+        # VALID calls on the loaded object (a new point, a conforming frame appended or put in place of frame 0, a parameter in another
+        # group): whether the library accepts or refuses them — an object whose ANALOG group holds no parameter makes the updaters
+        # refuse — a refusal must leave the object as it was
+        valid = [('loaded:valid-point', 'point 0 ' + hx(b'brandnew')), ('loaded:valid-analog', 'analog 0 ' + hx(b'brandnewc'))]
+        if not c['nchan']:
+            fl = 'frame 0 %s %d %s 0' % ('%s', len(pts), litp)
+            valid += [('loaded:valid-frame-append', fl % '-'), ('loaded:valid-frame-replace', fl % '0')]
+        for j, (kind, call) in enumerate(valid):
+            cases.append(('ld%d_v%d' % (i, j), ['loadx 0 ' + name, 'snap 0', call, 'snap 0'], kind))
     return cases
 
 def refusing_calls(rng, sh, heavy=False):
@@ -152,7 +161,9 @@ def run(rep, work, rng, tier):
             thrown[r.out[0]] = thrown.get(r.out[0], 0) + 1
             if r.before.raw != r.after.raw:
                 sig = None
-                if retyped(r.before) or ('param:retype' in ' '.join(lines[-4:]) or lines[-3].startswith('P.set F 0 1 3f800000')):
+                if '_v' in cid and cid.startswith('ld') and not mand_ok(r.before) and not retyped(r.before) and r.out[0] == 'throw invalid_argument':
+                    sig = 'mandatory-parameter-absent'      # a VALID call on an object loaded from a file that came without one of the thirteen: refused by the updater
+                elif retyped(r.before) or ('param:retype' in ' '.join(lines[-4:]) or lines[-3].startswith('P.set F 0 1 3f800000')):
                     sig = 'mandatory-parameter-retyped'
                 diff = [(a, b2) for a, b2 in zip(r.before.raw, r.after.raw) if a != b2][:2]
                 if rep.violation('oracle', 'the call %s threw %s but the object changed: %s' % (r.line[:80], r.out[0], diff),
